@@ -69,3 +69,102 @@
         assert!(!e.data.is_started());
         assert!(e.matches.count == 0 && e.matches.len.len() == nice as usize - 1 && e.matches.dist.len() == nice as usize - 1);
     }
+
+    // ---------------------------------------------------------------- C01.lze.pending: window <-> match finder position sync
+    /// MatchFind by contract (what HC4::skip / BT4::skip do with the window; their side is C01.mf.skip): `skip(n)` advances
+    /// the window n times with move_pos(4, 4) and inserts the position into its tables iff move_pos reports data available.
+    /// Ghost `next` = the next window position the finder expects to insert: a position inserted twice or left out is a
+    /// failed obligation (the finder's lz_pos / cyclic_pos would no longer describe the window: false matches).
+    pub(crate) struct MfGhost { pub(crate) next: i32 }
+    impl MatchFind for MfGhost {
+        fn find_matches(&mut self, _e: &mut LZEncoderData, _m: &mut Matches) { assert!(false, "not used"); }
+        fn skip(&mut self, e: &mut LZEncoderData, mut len: usize) {
+            while len > 0 {
+                len -= 1;
+                if e.move_pos(4, 4) != 0 {
+                    assert!(e.read_pos == self.next, "match finder out of step with the window: position inserted twice or skipped");
+                    self.next += 1;
+                }
+            }
+        }
+    }
+    fn mk_lz_data(buf_size: usize, ksa: u32) -> LZEncoderData {
+        LZEncoderData { keep_size_before: 16, keep_size_after: ksa, match_len_max: 8, nice_len: 8, buf: alloc::vec![0u8; buf_size], buf_size,
+            buf_limit_u16: buf_size - 2, read_pos: -1, read_limit: -1, finishing: false, write_pos: 0, pending_size: 0 }
+    }
+    /// any window state in which the finder is in step: positions 0..=read_pos-pending are inserted, the last `pending`
+    /// positions wait for more look-ahead
+    fn any_synced(buf_size: usize, ksa: u32) -> (LZEncoderData, MfGhost) {
+        let mut e = mk_lz_data(buf_size, ksa);
+        let wp: i32 = vk::any();
+        let rp: i32 = vk::any();
+        let pend: u32 = vk::any();
+        vk::assume(wp >= 0 && wp <= buf_size as i32);
+        vk::assume(rp >= -1 && rp < wp || (rp == -1 && wp == 0));
+        vk::assume(pend <= 6 && pend as i32 <= rp + 1);
+        e.write_pos = wp;
+        e.read_pos = rp;
+        e.pending_size = pend;
+        e.read_limit = vk::any();
+        vk::assume(e.read_limit >= -1 && e.read_limit < wp.max(0));
+        let mf = MfGhost { next: rp + 1 - pend as i32 };
+        (e, mf)
+    }
+    fn pending_spec(rp: i32, wp: i32, old: u32) -> u32 {
+        // positions in (rp-old, rp] that still have fewer than 4 bytes of look-ahead
+        let first = core::cmp::max(rp - old as i32, wp - 4);
+        if rp > first { (rp - first) as u32 } else { 0 }
+    }
+    /// set_flushing / set_finishing: read_limit = write_pos - 1; pending positions are re-offered to the finder exactly once
+    /// (rewind by pending, skip(pending)); afterwards the finder is in step again, read_pos is where it was, and exactly the
+    /// positions that still lack look-ahead are pending.
+    #[kani::proof]
+    #[kani::unwind(9)]
+    fn c01_lze_pending_flush() {
+        let (mut e, mut mf) = any_synced(32, 12);
+        let (rp, wp, old) = (e.read_pos, e.write_pos, e.pending_size);
+        let fin: bool = vk::any();
+        // precondition taken from the function's own debug_assert (pending must shrink): when pending bytes are re-offered,
+        // the oldest pending position has meanwhile received its 4 bytes of look-ahead (new input arrived since it was
+        // skipped). Establishing this at the call sites needs the encoder-loop invariant: assumed, not proved.
+        vk::assume(!(old > 0 && rp < wp - 1) || wp - (rp - old as i32 + 1) >= 4);
+        if fin { e.set_finishing(&mut mf); } else { e.set_flushing(&mut mf); }
+        assert!(e.read_limit == wp - 1 && e.finishing == fin && e.write_pos == wp);
+        assert!(e.read_pos == rp, "read position must be restored after re-feeding pending bytes");
+        assert!(mf.next == e.read_pos + 1 - e.pending_size as i32, "finder position and window position differ by other than the pending count");
+        if old > 0 && rp < wp - 1 {
+            // (with the finder's requirement (4, 4) the finishing flag does not release positions with < 4 bytes left)
+            assert!(e.pending_size == pending_spec(rp, wp, old));
+        } else {
+            assert!(e.pending_size == old);
+        }
+        crate::vcover!(old == 3 && e.pending_size == 0);
+        crate::vcover!(old == 3 && e.pending_size == 2);
+    }
+    /// fill_window (no window move): copies min(len, free) bytes at write_pos, read_limit follows write_pos - keep_size_after,
+    /// pending positions are re-offered once; finder in step afterwards.
+    #[kani::proof]
+    #[kani::unwind(9)]
+    fn c01_lze_fill_window_pending() {
+        let (mut e, mut mf) = any_synced(32, 6);
+        vk::assume(e.read_pos < 32 - 6);
+        let (rp, wp, old, rl) = (e.read_pos, e.write_pos, e.pending_size, e.read_limit);
+        let inp: [u8; 4] = vk::any();
+        let want = if 32 - wp < 4 { (32 - wp) as usize } else { 4 };
+        {
+            // same precondition as in c01_lze_pending_flush (from the debug_assert in process_pending_bytes)
+            let wp2 = wp + want as i32;
+            let rl_new = if wp2 >= 6 { wp2 - 6 } else { rl };
+            vk::assume(!(old > 0 && rp < rl_new) || wp2 - (rp - old as i32 + 1) >= 4);
+        }
+        let used = e.fill_window(&inp, &mut mf);
+        assert!(used == want && e.write_pos == wp + want as i32);
+        let mut i = 0;
+        while i < want { assert!(e.buf[wp as usize + i] == inp[i]); i += 1; }
+        let rl2 = if e.write_pos >= 6 { e.write_pos - 6 } else { rl };
+        assert!(e.read_limit == rl2);
+        assert!(e.read_pos == rp);
+        assert!(mf.next == e.read_pos + 1 - e.pending_size as i32, "finder position and window position differ by other than the pending count");
+        if old > 0 && rp < rl2 { assert!(e.pending_size == pending_spec(rp, e.write_pos, old)); } else { assert!(e.pending_size == old); }
+        crate::vcover!(old == 2 && e.pending_size == 0);
+    }
